@@ -106,6 +106,8 @@ def check_returns(rep, facts):
     kinds = set()
     bad = []
     for n in g.all_nodes():
+        if n.frame is not g.root:
+            continue        # return values of helpers are not poll_input's results (they reach them only through the lifted expressions)
         for si, st in enumerate(n.stmts):
             if st["k"] == "assign" and st["place"]["l"] == 0 and "p" not in st["place"] and st["rv"]["k"] == "agg" and st["rv"].get("vn") == "Ready":
                 v = g.lift(n.frame, n.frame.res.rvalue(st["rv"], (n.bb, si)))
